@@ -10,7 +10,8 @@ use metrique_writer::sink::{BackgroundQueue, BackgroundQueueBuilder, BackgroundQ
 use metrique_writer::{AnyEntrySink, BoxEntrySink, EntrySink};
 use std::collections::HashMap;
 use std::sync::atomic::{AtomicBool, AtomicU32, AtomicU64, Ordering};
-use std::sync::{Arc, Barrier, Mutex};
+use std::sync::{Arc, Mutex};
+use vcommon::sync::SpinGate as Barrier;
 use std::time::{Duration, Instant};
 use vcommon::serde_json::{Value, json};
 use vcommon::stream::{Ev, IdEntry, StreamShared, id_producer, make_id};
